@@ -54,6 +54,11 @@ func (m *machine) findIntrinsic(fn *ssa.Function) intrinsic {
 	if h := cryptoStub(m, fn, name, pkg); h != nil {
 		return h
 	}
+	if pkg == "testing" && fn.Signature.Recv() != nil {
+		if h := testingStub(name); h != nil {
+			return h
+		}
+	}
 	switch pkg {
 	case "github.com/sirupsen/logrus":
 		return logrusStub
